@@ -21,7 +21,7 @@ uint64_t g_ci_dr, g_ci_dg, g_ci_db, g_ci_da, g_ci_sr, g_ci_sg, g_ci_sb, g_ci_sa,
 #include "x_canvas.c"
 
 /* globals are zero-initialised, not nondet: every ghost gets its value from a nondet local */
-#define GH(T, n) { T in_##n; g_##n = in_##n; }
+#define GH(T, n) { T in_gh_##n; g_##n = in_gh_##n; }
 #define IN_D GH(ssize_t, dw) GH(ssize_t, dh) GH(bool, dalpha) GH(uint8_t, dcw) GH(ssize_t, dx) GH(ssize_t, dy) \
              GH(uint64_t, dr) GH(uint64_t, dg) GH(uint64_t, db) GH(uint64_t, da)
 #define IN_S GH(ssize_t, sw) GH(ssize_t, sh) GH(bool, salpha) GH(uint8_t, scw) GH(ssize_t, sx) GH(ssize_t, sy) \
